@@ -59,7 +59,9 @@ struct Sched
 	std::atomic<uint64_t> seed;
 	std::atomic<int> pRandom;  // per-mille probability of a random perturbation
 	std::atomic<uint64_t> forced; // how often the targeted window fired
-	Sched() { mode = 0; tag = -1; role = -1; nth = 1; delayUs = 300; seed = 1; pRandom = 40; forced = 0; }
+	std::atomic<int> tag2, nth2, delayUs2; // optional second targeted window (same role); tag2 = -1: none
+	std::atomic<uint64_t> forced2;
+	Sched() { mode = 0; tag = -1; role = -1; nth = 1; delayUs = 300; seed = 1; pRandom = 40; forced = 0; tag2 = -1; nth2 = 1; delayUs2 = 300; forced2 = 0; }
 };
 inline Sched & sched() { static Sched * s = new Sched(); return *s; }
 
@@ -100,6 +102,14 @@ inline void perturb(const char * tag)
 		if((role < 0 || role == t.role) && (int)v == s.nth.load(std::memory_order_relaxed)) {
 			s.forced.fetch_add(1, std::memory_order_relaxed);
 			std::this_thread::sleep_for(std::chrono::microseconds(s.delayUs.load(std::memory_order_relaxed)));
+			return;
+		}
+	}
+	if(mode == 2 && id == s.tag2.load(std::memory_order_relaxed)) {
+		const int role = s.role.load(std::memory_order_relaxed);
+		if((role < 0 || role == t.role) && (int)v == s.nth2.load(std::memory_order_relaxed)) {
+			s.forced2.fetch_add(1, std::memory_order_relaxed);
+			std::this_thread::sleep_for(std::chrono::microseconds(s.delayUs2.load(std::memory_order_relaxed)));
 			return;
 		}
 	}
@@ -192,7 +202,7 @@ struct MonAtomic
 	constexpr MonAtomic(T d) noexcept : v(d) {}
 	MonAtomic(const MonAtomic &) = delete;
 	MonAtomic & operator = (const MonAtomic &) = delete;
-	T load(std::memory_order o = std::memory_order_seq_cst) const noexcept { perturb("atomic.load.pre"); T r = v.load(o); perturb("atomic.load.post"); return r; }
+	T load(std::memory_order o = std::memory_order_seq_cst) const noexcept { if(tls().racyDepth) perturb("atomic.load.racy"); /* second read of a documented unlocked pair */ perturb("atomic.load.pre"); T r = v.load(o); perturb("atomic.load.post"); return r; }
 	void store(T d, std::memory_order o = std::memory_order_seq_cst) noexcept { perturb("atomic.rmw.pre"); v.store(d, o); perturb("atomic.rmw.post"); }
 	T exchange(T d, std::memory_order o = std::memory_order_seq_cst) noexcept { perturb("atomic.rmw.pre"); T r = v.exchange(d, o); perturb("atomic.rmw.post"); return r; }
 	T operator ++ () noexcept { perturb("atomic.rmw.pre"); T r = ++v; perturb("atomic.rmw.post"); return r; }
